@@ -19,10 +19,10 @@ RULE = ('cases are accepted middleware stacks (0-5 middlewares over application 
         'distinct by hash of configuration + deviation')
 ASSUMPTIONS = ['at most one instance of a unique middleware type inside any single list (O5)',
                'exceptions are plain Exception subclasses raised by the spies; the application re-raises uncaught errors']
-REQUIRED_REACH = ['dup-unique-within-an-inner-list', 'beh:render-layer-returns-non-response', 'same-instance-across-levels', 'same-class-name-across-levels', 'constructed', 'requests-on-accepted', 'beh:raise_before', 'beh:raise_after', 'beh:short', 'beh:swallow',
+REQUIRED_REACH = ['dup-unique-within-an-inner-list', 'beh:render-layer-returns-non-response', 'same-instance-across-levels', 'same-instance-across-levels:unique', 'same-instance-across-levels:unique-nonreorderable', 'same-class-name-across-levels', 'constructed', 'requests-on-accepted', 'beh:raise_before', 'beh:raise_after', 'beh:short', 'beh:swallow',
                   'beh:replace', 'beh:short_ctx', 'beh:ep-resp', 'beh:ep-raise', 'beh:rn-raise', 'levels:2', 'levels:3',
                   'dup-unique-across-levels', 'nonreorderable-dup', 'phase-seen:request', 'phase-seen:endpoint',
-                  'phase-seen:render', 'sibling-routes-with-own-middlewares', 'flavour:base', 'flavour:http', 'raises-http-exception', 'subclass-across-levels']
+                  'phase-seen:render', 'sibling-routes-with-own-middlewares', 'flavour:base', 'flavour:http', 'raises-http-exception', 'raises-builtin-exception', 'subclass-across-levels']
 NSHARDS = 16
 MW_BEH = ['raise_before', 'raise_after', 'short', 'short_ctx', 'swallow', 'replace']
 
@@ -68,11 +68,17 @@ def retype(rng, cfg, sh):
         m2.update(copy.deepcopy(m1))
         m2['alias_of'] = m1['mid']
         m2['mid'] = keep['mid']
+        # ... or of a unique type: one object is certainly one type, kept once at its outermost position (refused when
+        # the type is not reorderable)
+        how = rng.pick(['nonunique', 'unique', 'unique', 'unique-nonreorderable'])
         for m in (m1, m2):
-            m['unique'] = False
+            m['unique'] = how != 'nonunique'
+            if how == 'unique-nonreorderable':
+                m['reorderable'] = False
             for a in ('provides', 'endpoint_provides', 'render_provides'):
                 m[a] = []
         sh.hit('same-instance-across-levels')
+        sh.hit('same-instance-across-levels:' + how)
         return
     if mode == 'subclass':
         # one type derives from the other: different types, both stay (whichever level carries the subclass)
@@ -137,14 +143,22 @@ def make_case(rng, sh):
     # what kind of object a spy returns as "a Response": a werkzeug Response, a bare BaseResponse, or a returned HTTP error
     cfg['exc_flavour'] = {}
     for fid, b in beh.items():
-        if b in ('raise_before', 'raise_after', 'raise') and rng.chance(0.4):
-            cfg['exc_flavour'][fid] = rng.pick(['http', 'http', 'werkzeug'])   # an HTTPException (an exception *and* a response), clastic's or werkzeug's
-            sh.hit('raises-http-exception')
+        if b in ('raise_before', 'raise_after', 'raise') and rng.chance(0.6):
+            # an HTTPException (an exception *and* a response), clastic's or werkzeug's - or one of the built-in exception types
+            cfg['exc_flavour'][fid] = rng.pick(['http', 'http', 'werkzeug', 'builtin:TypeError', 'builtin:TypeError', 'builtin:KeyError',
+                                                'builtin:AttributeError', 'builtin:ValueError', 'builtin:NameError', 'builtin:RuntimeError',
+                                                'builtin:LookupError', 'builtin:AssertionError', 'builtin:NotImplementedError'])
+            sh.hit('raises-http-exception' if not cfg['exc_flavour'][fid].startswith('builtin:') else 'raises-builtin-exception')
     cfg['resp_flavour'] = {}
     for fid, b in beh.items():
         if b in ('short', 'swallow', 'replace', 'resp') and rng.chance(0.45):
             cfg['resp_flavour'][fid] = rng.pick(['base', 'http'])
             sh.hit('flavour:' + cfg['resp_flavour'][fid])
+    # what a non-Response result is: the render side runs for anything that is not a Response - bytes (binary or text),
+    # text, containers, empty containers - exactly as for an opaque object
+    if rng.chance(0.5):
+        cfg['ctx_flavour'] = rng.pick(['bytes-binary', 'bytes-latin1', 'bytes-text', 'bytearray', 'str', 'dict', 'list', 'empty-dict'])
+        sh.hit('non-response-result:' + cfg['ctx_flavour'])
     sh.hit('levels:%d' % nlev)
     for ph, _ in funcs:
         sh.hit('phase-seen:' + ph)
